@@ -114,6 +114,11 @@ pub trait Prop: Sync {
     fn regressions(&self) -> Vec<Regression> {
         Vec::new()
     }
+    /// Some(n): termination is part of the property - a single case that runs longer than n
+    /// seconds (cases take micro- to milliseconds) is a violation, not an infrastructure stall
+    fn hang_limit_s(&self) -> Option<u64> {
+        None
+    }
     /// workers are used at all
     fn uses_workers(&self) -> bool {
         true
@@ -648,7 +653,32 @@ pub fn run_check(prop: &dyn Prop, tier: &str, seed: u64, pr: &mut Printer) -> i3
                     Ok(None) => {
                         running += 1;
                         if let Some(age) = mtime_age(&out.with_extension("slot")) {
-                            if age > stall {
+                            let limit = prop.hang_limit_s().map(Duration::from_secs);
+                            if limit.map_or(false, |l| age > l) {
+                                let _ = child.kill();
+                                let _ = child.wait();
+                                *finished = true;
+                                match read_slot(&out.with_extension("slot")) {
+                                    Some(bytes) => {
+                                        let case = crate::outcome::guarded(|| prop.describe(&bytes))
+                                            .unwrap_or(json!(null));
+                                        violations.push(Violation {
+                                            sig: "no-termination".into(),
+                                            detail: format!(
+                                                "the case did not finish within {:?} (other cases take milliseconds): unbounded loop or recursion",
+                                                limit.unwrap()
+                                            ),
+                                            bytes,
+                                            case,
+                                        });
+                                    }
+                                    None => inconclusive.push(format!(
+                                        "worker {} made no progress for {:?} and left no case",
+                                        shard,
+                                        limit.unwrap()
+                                    )),
+                                }
+                            } else if age > stall {
                                 let _ = child.kill();
                                 let _ = child.wait();
                                 *finished = true;
@@ -1001,6 +1031,32 @@ pub fn replay(prop: &dyn Prop, path: &Path, pr: &mut Printer) -> i32 {
         "case: {}",
         serde_json::to_string_pretty(&case).unwrap_or_default()
     ));
+    if let Some(limit) = prop.hang_limit_s() {
+        // run the case on a thread of its own first: a case that does not terminate is reported
+        let (tx, rx) = std::sync::mpsc::channel();
+        let hung = std::thread::scope(|sc| {
+            let b = bytes.clone();
+            sc.spawn(move || {
+                let mut c = Ctx::default();
+                let _ = crate::outcome::guarded(|| prop.check(&b, &mut c));
+                let _ = tx.send(());
+            });
+            if rx.recv_timeout(Duration::from_secs(limit)).is_err() {
+                pr.line(&format!(
+                    "VIOLATION property={} replay={}",
+                    prop.id(),
+                    path.display()
+                ));
+                pr.line(&format!(
+                    "  signature: no-termination\n  detail: the case did not finish within {} s",
+                    limit
+                ));
+                std::process::exit(1);
+            }
+            false
+        });
+        let _ = hung;
+    }
     match crate::outcome::guarded(|| prop.check(&bytes, &mut c)) {
         Ok(Verdict::Pass) => {
             pr.line("replay: PASS");
